@@ -294,6 +294,9 @@ func (e *Exec) mergeTwo(basePC []string, nPC, nAs int, A, B *State) (M *State, o
 			mfail("frame position")
 		}
 	}
+	if len(A.Spy) != len(B.Spy) {
+		mfail("stub call log differs")
+	}
 	cA, cB := suffixCond(A.PC, nPC), suffixCond(B.PC, nPC)
 	if cA == "true" || cB == "true" {
 		mfail("unconditional arm")
@@ -362,6 +365,12 @@ func (e *Exec) mergeTwo(basePC []string, nPC, nAs int, A, B *State) (M *State, o
 			continue
 		}
 		M.Heap[id] = ite(ha, hb)
+	}
+	for i := range A.Spy {
+		if A.Spy[i].Name != B.Spy[i].Name {
+			mfail("stub call log differs")
+		}
+		M.Spy[i] = spyRec{Name: A.Spy[i].Name, Args: ite(Tuple(A.Spy[i].Args), Tuple(B.Spy[i].Args)).(Tuple), Res: ite(A.Spy[i].Res, B.Spy[i].Res).(Tuple)}
 	}
 	// environment
 	e.mergeEnv(M, A, B, cA, cB)
